@@ -55,6 +55,10 @@ func (fr *frame) call(instr *ssa.Call, c *ssa.CallCommon, st *State) Value {
 		return r
 	}
 	if ext != nil {
+		if ect := fx.E.S.Contracts["extern:"+extName(ext)]; ect != nil && len(ext.Params) == len(args) {
+			fx.note("assumed contract of external function %s", extName(ext))
+			return fr.callContract(ext, ect, args, st, resT, pos, nil)
+		}
 		if r, ok := fr.externalCall(ext, args, st, resT, pos); ok {
 			return r
 		}
@@ -235,13 +239,31 @@ func (fr *frame) callContract(callee *ssa.Function, ct *Contract, args []Value, 
 	name := FuncName(callee)
 	sub := &frame{fx: fx, fn: callee, name: name, params: fr.bindParams(callee, args), level: fr.level, prefix: fr.prefix, depth: fr.depth, curReach: fr.curReach}
 	pre := st.Clone()
-	if callee.Signature.Recv() != nil && len(args) > 0 {
+	if callee.Signature.Recv() != nil && len(args) > 0 && !ct.Extern {
 		if _, ok := under(callee.Params[0].Type()).(*types.Pointer); ok {
 			fr.oblige("nil", "recv."+callee.Name(), Ne(args[0].T, "0"), pos)
 		}
 	}
 	if cc != nil && len(ct.FuncParams) > 0 {
 		fr.checkFuncParams(callee, ct, cc, args, pos)
+	}
+	if cc != nil && len(ct.MapSpecs) > 0 {
+		// the caller must pass a map for which it assumes the same property itself (its own parameter with the same mapspec)
+		for pname, ms := range ct.MapSpecs {
+			ok := False
+			for i, p := range callee.Params {
+				if p.Name() != pname || i >= len(cc.Args) {
+					continue
+				}
+				if q := paramOfValue(cc.Args[i]); q != nil && fr.contract != nil && fr.prefix == "" {
+					if mine := fr.contract.MapSpecs[q.Name()]; mine != nil && strings.Join(strings.Fields(mine.Src), " ") == strings.Join(strings.Fields(ms.Src), " ") {
+						ok = True
+					}
+				}
+			}
+			o := fx.enc.Oblige(fx.root, "mapspec", fr.prefix+callee.Name()+"."+pname, Implies(fr.curReach, ok), fr.pos(pos))
+			o.Facet = "S"
+		}
 	}
 	ev := sub.env(st, pre, nil)
 	ev.local = nil
